@@ -54,17 +54,17 @@ Qed.
 Lemma stamp_vn C s m : stamp_msg (vn C s) m = stamp_msg s m.
 Proof. reflexivity. Qed.
 
-Lemma nis_stamp s m : nis (stamp_msg s m) = nis m.
+Lemma img_stamp s m : img (stamp_msg s m) = stamp_msg s (img m).
 Proof. reflexivity. Qed.
 
-Lemma out_msgs_vn_in C s m : In m (out_msgs (vn C s)) <-> In m (out_msgs s) /\ nis m = true.
+Lemma out_msgs_vn_in C s m' : In m' (out_msgs (vn C s)) <-> exists m, In m (out_msgs s) /\ m' = img m.
 Proof.
-  unfold out_msgs. rewrite !in_sort_by_to, !in_map_iff. split.
-  - intros [m0 [E H]]. simpl in H. apply filter_In in H. destruct H as [H1 H2]. split.
-    + exists m0. split; auto.
-    + rewrite <- E. rewrite stamp_vn, nis_stamp. exact H2.
-  - intros [[m0 [E H]] Hn]. exists m0. split; [rewrite stamp_vn; exact E|]. simpl. apply filter_In. split; auto.
-    rewrite <- E in Hn. rewrite nis_stamp in Hn. exact Hn.
+  unfold out_msgs. rewrite in_sort_by_to, in_map_iff. split.
+  - intros [m0 [E H]]. simpl in H. apply in_map_iff in H. destruct H as [m1 [E1 H1]].
+    exists (stamp_msg s m1). split; [rewrite in_sort_by_to; apply in_map; exact H1|].
+    rewrite <- E, <- E1. rewrite stamp_vn. symmetry. apply img_stamp.
+  - intros [m [H E]]. rewrite in_sort_by_to, in_map_iff in H. destruct H as [m1 [E1 H1]].
+    exists (img m1). split; [rewrite stamp_vn, <- img_stamp, E1; symmetry; exact E | simpl; apply in_map; exact H1].
 Qed.
 
 Lemma step_vsys Cf S σ s' C' :
@@ -102,14 +102,16 @@ Proof.
   destruct (In1 i x Gx) as [[P1 P2] [Cf1 M1]]. split; [| split].
   - split; simpl; [apply Forall_app; split; [apply HC | exact P1] | exact I].
   - exact Cf1.
-  - simpl. rewrite Forall_forall in *. intros m Hm. apply filter_In in Hm. apply M1. tauto.
+  - simpl. rewrite Forall_forall in *. intros m Hm. apply in_map_iff in Hm. destruct Hm as [m1 [E H1]]. subst m.
+    specialize (M1 m1 H1). unfold mok in *. simpl. destruct (m_body m1); simpl; auto.
 Qed.
 
 (* ---------------------------------------------------------------- the abstract node step of a virtual node, from a real run *)
 Lemma msgs_ok_vn C s : msgs_ok s -> msgs_ok (vn C s).
 Proof.
-  unfold msgs_ok. rewrite !Forall_forall. intros H m Hm. simpl in Hm. apply filter_In in Hm. destruct Hm as [Hm _].
-  exact (H m Hm).
+  unfold msgs_ok. rewrite !Forall_forall. intros H m Hm. simpl in Hm. apply in_map_iff in Hm. destruct Hm as [m1 [E H1]]. subst m.
+  destruct (H m1 H1) as [X [Y Z]]. unfold msg_ok. simpl. split; [exact X|]. split; [exact Y|].
+  intro Hb. apply Z. destruct (m_body m1); simpl in Hb; try discriminate; auto.
 Qed.
 
 Lemma nstep_vn C s ev k crashed st s' :
